@@ -262,6 +262,10 @@ def run(check, an: Analysis):
     check.rule('G', 'no activity is finalised by the garbage collector: every way out of a '
                     'scope runs the closing sequence (rule shared with C04)')
     c04.check_close_on_every_exit(check, an, 'G', _scope.scope_receivers(an))
+    # a wake-up that changes nothing still re-queues the woken transfers behind everybody
+    # made runnable in between: the pipe re-plans only when demand exceeds its throughput
+    from . import c13
+    c13.check_scale(check, an, 'G')
     # ---- D ------------------------------------------------------------------
     n_assert, bad_assert = 0, []
     for fn, frame in rules.all_frames(an):
